@@ -15,8 +15,11 @@ func c11Svc(extra map[string]any) map[string]any {
 // the name of the service under test: an ordinary one, or one that starts like an extension key (a valid service name)
 var c11Name = "s"
 
+// set by the scenarios that also run with interpolation switched off
+var c11SkipInterpolation bool
+
 func VerifC11Defaults() {
-	scen := vrtChoice("scenario", 15)
+	scen := vrtChoice("scenario", 16)
 	c11Name = []string{"s", "x-s"}[vrtChoice("serviceName", 2)]
 	v := "x" + vrtString("v", vrtParam("VL", 1), "ab")
 	other := map[string]any{"image": "i"}
@@ -265,17 +268,44 @@ func VerifC11Defaults() {
 			o, _ := l[0].(map[string]any)
 			return o["protocol"] == any("udp") && o["mode"] == any("host")
 		}
+	case 15: // resource names: <project>_<key> unless external, whichever way `external` is spelled; interpolation on or off
+		kind := []string{"volumes", "networks", "secrets", "configs"}[vrtChoice("resourceKind", 4)]
+		ext := []any{true, "true", false, "false", nil}[vrtChoice("external", 5)]
+		res := func(withName bool) map[string]any {
+			r := map[string]any{}
+			if ext != nil {
+				r["external"] = ext
+			}
+			isExt := ext == any(true) || ext == any("true")
+			if (kind == "secrets" || kind == "configs") && !isExt {
+				r["file"] = "/f"
+			}
+			if withName {
+				if isExt {
+					r["name"] = "res"
+				} else {
+					r["name"] = "p_res"
+				}
+			}
+			return r
+		}
+		implicit = mk(c11Svc(nil), map[string]any{kind: map[string]any{"res": res(false)}})
+		explicit = mk(c11Svc(nil), map[string]any{kind: map[string]any{"res": res(true)}})
+		c11SkipInterpolation = vrtChoice("skipInterpolation", 2) == 1
 	case 11: // short depends_on list
 		implicit = mk(c11Svc(map[string]any{"depends_on": []any{"o", "data"}}), nil)
 		explicit = mk(c11Svc(map[string]any{"depends_on": map[string]any{"o": map[string]any{"condition": "service_started", "required": true}, "data": map[string]any{"condition": "service_started", "required": true}}}), nil)
 	}
 	// origin of the attribute: main file, or an override file on top of a minimal main file
+	skipI := c11SkipInterpolation
+	c11SkipInterpolation = false
+	opts := func(o *Options) { o.SkipInterpolation = skipI }
 	load := func(doc map[string]any) (map[string]any, error) {
 		if vrtParam("ORIGIN", 0) == 1 {
 			base := map[string]any{"services": map[string]any{c11Name: map[string]any{"image": "i"}}}
-			return tcLoad(nil, nil, base, doc)
+			return tcLoad(nil, opts, base, doc)
 		}
-		return tcLoad(nil, nil, doc)
+		return tcLoad(nil, opts, doc)
 	}
 	mi, ei := load(implicit)
 	me, ee := load(explicit)
